@@ -98,3 +98,41 @@ func (x *g) genGadgetService() {
 	x.s.AddFeature("gadget-service", "response-cookies-several", "tagged-response-explicit-body", "result-collection-of-collections-of-usertype",
 		"payload-collection-of-collections-of-usertype", "response-text-bytes", "param-array-default")
 }
+
+// genSecurityGadgetService adds (openapi and security runtime profiles, derived PRNG stream) a service with two
+// schemes of its own and two methods: the first requires the JWT alone, the second the JWT AND an API key in one
+// requirement — a scheme the documents have already met at the same location, followed by one they have not.
+func (x *g) genSecurityGadgetService() {
+	if x.o.Profile != "openapi" && x.o.Profile != "security" {
+		return
+	}
+	gr := x.r.Derive(0x5ec6ad)
+	if !gr.Chance(1, 2) {
+		return
+	}
+	for _, sv := range x.s.Services {
+		if sv.Name == "secgadgets" {
+			return
+		}
+	}
+	x.s.Schemes = append(x.s.Schemes,
+		&spec.Scheme{Name: "gjwt", Kind: "jwt", Scopes: []string{"g:read", "g:write"}},
+		&spec.Scheme{Name: "gkey", Kind: "apikey"})
+	str := func() *spec.Type { return &spec.Type{Kind: spec.String} }
+	list := &spec.Method{Name: "list",
+		Security: []*spec.Requirement{{Schemes: []string{"gjwt"}, Scopes: []string{"g:read"}}},
+		Payload: &spec.Attr{Type: &spec.Type{Kind: spec.Object, Attrs: []*spec.Attr{
+			{Name: "token", Type: str(), Sec: "token"}, {Name: "note", Type: str()}}, Required: []string{"token"}}},
+		Result: &spec.Attr{Type: str()},
+		HTTP:   &spec.HTTP{Routes: []spec.Route{{Verb: "POST", Path: "/list"}}}}
+	create := &spec.Method{Name: "create",
+		Security: []*spec.Requirement{{Schemes: []string{"gjwt", "gkey"}, Scopes: []string{"g:write"}}},
+		Payload: &spec.Attr{Type: &spec.Type{Kind: spec.Object, Attrs: []*spec.Attr{
+			{Name: "token", Type: str(), Sec: "token"}, {Name: "key_gkey", Type: str(), Sec: "apikey:gkey"}, {Name: "note", Type: str()}},
+			Required: []string{"token", "key_gkey"}}},
+		Result: &spec.Attr{Type: str()},
+		HTTP: &spec.HTTP{Routes: []spec.Route{{Verb: "POST", Path: "/create"}},
+			Headers: []spec.Loc{{Attr: "key_gkey", Wire: "X-G-Key"}}}}
+	x.s.Services = append(x.s.Services, &spec.Service{Name: "secgadgets", BasePath: "/secgadgets", Methods: []*spec.Method{list, create}})
+	x.s.AddFeature("security-gadget-service", "requirement-seen-scheme-then-new-scheme", "scheme-jwt", "scheme-apikey", "method-security")
+}
